@@ -15,7 +15,19 @@ import sys
 
 from .. import core, takio
 from ..core import cbool, clist, copt, cstr, cz, czlist
-from . import c01gen, c13, c13gen
+from . import c01gen, c13gen
+
+
+
+class _Lazy:
+    """c13.py may import this module (to run its correspondence too): import c13 on first use"""
+
+    def __getattr__(self, name):
+        import importlib
+        return getattr(importlib.import_module("harness.props.c13"), name)
+
+
+c13 = _Lazy()
 
 ID = "T13"
 THEOREMS = ["T13_gen_parse_tps_eq", "T13_gen_parse_row_eq", "T13_gen_parse_total", "T13_gen_format_tps_eq",
@@ -125,6 +137,7 @@ def _long_digits(runs):
 def sem_cases(run, n):
     rng = run.rng
     cs = core.Cases(ID, "pystr", SEM_HEADER, "scase", "schk", shard=300)
+    cl = core.Cases(ID, "pystrlim", SEM_HEADER, "scase", "schk", shard=1)     # the expensive 4300-digit cases, one per file
     dist = {}
 
     def rs(maxlen=8, alpha=ALPHA):
@@ -133,7 +146,7 @@ def sem_cases(run, n):
     def add(kind, term, meta):
         dist[kind] = dist.get(kind, 0) + 1
         meta["kind"] = kind
-        cs.add(term, meta)
+        (cl if kind in ("int-limit", "str-limit", "try-limit") else cs).add(term, meta)
 
     def ob(f, emit):
         try:
@@ -152,8 +165,10 @@ def sem_cases(run, n):
         except ValueError:
             v, o = None, "(OE ValueError)"
         add("int-limit", f"SInt {_long_digits(runs)} {o}", {"expr": f"int({runs})", "raises": v is None})
-    for nexpr, pyv in (("(10 ^ 4300 - 1)", 10 ** 4300 - 1), ("(10 ^ 4300)", 10 ** 4300), ("(- (10 ^ 4300 - 1))", -(10 ** 4300 - 1)),
-                       ("(- 10 ^ 4300)", -(10 ** 4300))):
+    # str() at the limit: digit extraction of a 4300-digit number costs Coq's binary arithmetic ~1 minute per case:
+    # thorough tier only (the quick tier checks str() up to 10^40 and the limit constant itself through STable)
+    for nexpr, pyv in (() if run.quick else (("(10 ^ 4300 - 1)", 10 ** 4300 - 1), ("(10 ^ 4300)", 10 ** 4300),
+                                             ("(- (10 ^ 4300 - 1))", -(10 ** 4300 - 1)), ("(- 10 ^ 4300)", -(10 ** 4300)))):
         try:
             t = str(pyv)
             neg = t.startswith("-")
@@ -221,8 +236,8 @@ def sem_cases(run, n):
             o = f"(OV (fold_left (fun a c => 10 * a + (c - 48)) {_long_digits(runs)} 0))"
         except ValueError:
             o = "(OV (-1))"
-        add("try", f"STry {_long_digits(runs)} {o}", {"expr": f"try: int({runs}) except ValueError: -1"})
-    return cs, dist
+        add("try-limit", f"STry {_long_digits(runs)} {o}", {"expr": f"try: int({runs}) except ValueError: -1"})
+    return cs, cl, dist
 
 
 # --------------------------------------------------------------------------------------------------------------------
@@ -329,10 +344,12 @@ def correspondence(run):
     err = _STATE.get("err", "unset")
     if err == "unset":
         err = pregen(run)
-    cs, dist = sem_cases(run, 2500 if run.quick else 15000)
+    cs, cl, dist = sem_cases(run, 2500 if run.quick else 15000)
     failing, shard_fail, nshards = cs.run()
+    f2, sf2, n2 = cl.run()
+    failing, shard_fail, nshards = failing + f2, shard_fail + sf2, nshards + n2
     run.oblige(f"correspondence:pysem-strings ({nshards} shards)", not shard_fail, str(shard_fail)[:1500])
-    run.count(len(cs), len(set(cs.terms)),
+    run.count(len(cs) + len(cl), len(set(cs.terms)) + len(cl),
               "PySem.v string semantics vs CPython: split / join / isascii / isdigit over an alphabet with non-ASCII "
               "digits (Arabic-Indic, superscript, full-width, mathematical, Devanagari, circled), blanks (NBSP, EM SPACE), "
               "NUL; the complete table of digit code points and sys.get_int_max_str_digits(); int() on ASCII digits incl. "
